@@ -19,6 +19,8 @@ def make(tt, S, origin, real):
         return X[(slice(None, None, 2),) + (slice(None),) * (d - 1)] if d > 1 else X[slice(None, None, 2)]
     if origin == "neg":
         return -X
+    if origin == "conj":
+        return X.conj()
     if origin == "svd":
         D = project.dense(X.cores)
         if S["k"] == "tt":
